@@ -22,3 +22,5 @@ def run(res, tier, seed, replay):
     modes = ["neigh"] * 6 + ["straddle"] * 6 + ["alias"] * 6
     if tier == "thorough": modes = modes * 20
     histlib.check_histories(res, "c03", 0, seed + 33, "ranges", extra_lines=[arenalib.gen(rr, f"a{i}", mode=m) for i, m in enumerate(modes)])
+    # crowded lifetimes: 9-24 installations alive in one injector
+    histlib.check_histories(res, "c03", 12 if tier == "quick" else 400, seed + 34, "ranges", gen=histlib.gen_crowded_history)
